@@ -1887,7 +1887,17 @@ class World:
         x2 = np.array(xe, copy=True)
         x2[(slice(1, -1),) * nd] = wi
         if O.backward_residual(M, RHS, x2) > max(1e-9, 1e3 * res0):
-            self.flag("C04", "I5", "matrixpde", {"var": vent.name})
+            # a (numerically) singular system - steady pure-Neumann problem - has no
+            # unique solution: two correct direct solves of the same matrix stored
+            # with another sparsity pattern may return different vectors
+            try:
+                cond = np.linalg.cond(M.toarray())
+            except Exception:
+                cond = np.inf
+            if not np.isfinite(cond) or cond > 1e10:
+                self.stats["i5:matrixpde-singular-skipped"] += 1
+                return
+            self.flag("C04", "I5", "matrixpde", {"var": vent.name, "cond": float(cond)})
             return
 
     # --------------------------------------------------------- op: matrixpde
